@@ -79,20 +79,20 @@ func (v *Violation) Input() []byte {
 
 // Report is what one worker (shard) hands to the driver.
 type Report struct {
-	Property     string           `json:"property"`
-	Shard        int              `json:"shard"`
-	Cases        int64            `json:"cases"`       // distinct inputs / histories processed by this shard
-	Duplicates   int64            `json:"duplicates"`  // generated inputs skipped because already seen
-	Evaluations  int64            `json:"evaluations"` // monitored executions of the code under test
-	Nontrivial   int64            `json:"nontrivial"`  // distinct cases passing the property's non-triviality rule
-	Counters     map[string]int64 `json:"counters"`    // named event counts
+	Property     string              `json:"property"`
+	Shard        int                 `json:"shard"`
+	Cases        int64               `json:"cases"`          // distinct inputs / histories processed by this shard
+	Duplicates   int64               `json:"duplicates"`     // generated inputs skipped because already seen
+	Evaluations  int64               `json:"evaluations"`    // monitored executions of the code under test
+	Nontrivial   int64               `json:"nontrivial"`     // distinct cases passing the property's non-triviality rule
+	Counters     map[string]int64    `json:"counters"`       // named event counts
 	Sets         map[string][]string `json:"sets,omitempty"` // named sets of distinct things observed (merged by union)
-	Samples      []interface{}    `json:"samples"`
-	Violations   []Violation      `json:"violations"`
-	NViolations  int64            `json:"n_violations"`
-	Inconsistent []Violation      `json:"inconsistent"` // model != encoding/json etc: harness faults
-	Notes        []string         `json:"notes,omitempty"`
-	Floats       map[string]float64 `json:"floats,omitempty"`
+	Samples      []interface{}       `json:"samples"`
+	Violations   []Violation         `json:"violations"`
+	NViolations  int64               `json:"n_violations"`
+	Inconsistent []Violation         `json:"inconsistent"` // model != encoding/json etc: harness faults
+	Notes        []string            `json:"notes,omitempty"`
+	Floats       map[string]float64  `json:"floats,omitempty"`
 }
 
 // Recorder accumulates a Report. Safe for concurrent use (C18 needs it).
